@@ -25,11 +25,15 @@ ASSUMPTIONS = ["cases where a reference Born probability that is paired with pos
 def cases(draw, tier):
     t = draw(st.sampled_from(gen.TYPES))
     nmax = 3 if tier == "quick" else (3 if t == "density" else 4)
-    sc = draw(gen.state_case(types=[t], n=(1, nmax), nh=(1, 3), na=(1, 3), scales=[0.05, 0.5, 0.5, 2.0], bound=30.0))
+    if draw(st.integers(0, 5)) == 0:
+        sc = draw(gen.state_case(types=[t], n=(1, nmax), nh=(1, 3), na=(1, 3), scales=[0.5, 2.0, 8.0, 30.0], bound=34.0))     # strongly polarised states: Born probabilities down to ~1e-15
+    else:
+        sc = draw(gen.state_case(types=[t], n=(1, nmax), nh=(1, 3), na=(1, 3), scales=[0.05, 0.5, 0.5, 2.0], bound=30.0))
+    alt = draw(gen.state_case(types=[t], n=(sc["n"], sc["n"]), nh=(sc["nh"], sc["nh"]), na=(sc.get("na", 1), sc.get("na", 1)), scales=[0.5, 2.0], bound=30.0))
     n = sc["n"]
     D = 2 ** n
     fl = st.floats(-1, 1, allow_nan=False, width=64)
-    c = {"state": sc, "phi": draw(st.floats(-3.2, 3.2, allow_nan=False, width=64))}
+    c = {"state": sc, "phi": draw(st.floats(-3.2, 3.2, allow_nan=False, width=64)), "alt": {"am": alt["am"], "ph": alt.get("ph")}}
     if t == "density":
         r = draw(st.integers(1, D))
         c["A"] = {"re": draw(st.lists(fl, min_size=D * r, max_size=D * r)), "im": draw(st.lists(fl, min_size=D * r, max_size=D * r)), "r": r}
@@ -156,11 +160,13 @@ def check(c):
     blist = bases if bases is not None else ["Z" * n]
     qs = [born(target, b) for b in blist]
     ps = [born(model, b) for b in blist]
-    risky = any(bool(((p < 1e-12) & (q > 0)).any()) for p, q in zip(ps, qs))
+    TINY = 1e-15      # torch's probs_to_logits clamps at double eps (2.2e-16): only probabilities below ~1e-15 are outside the comparable regime
+    risky = any(bool(((p < TINY) & (q > 0)).any()) for p, q in zip(ps, qs))
     if risky:
         excluded += 1
     else:
         want = sum(kl_ref(q / q.sum(), p / p.sum()) for q, p in zip(qs, ps)) / len(blist)
+        kl_want = want
         if bases is not None and c["dict_form"]:
             rot = (lambda M, b: R.kron_U(ud, b) @ M @ R.kron_U(ud, b).conj().t()) if dens else (lambda v, b: R.kron_U(ud, b) @ v)
             tdict = {b: R.c_to_lib(rot(target, b)) for b in bases}
@@ -174,7 +180,7 @@ def check(c):
         require(abs(kl - want) <= 1e-8 * (1 + abs(want)), "KL:value" + (":bases=None" if bases is None else ""),
                 f"KL = {kl} but the mean Kullback-Leibler divergence of the Born distributions over bases {blist} is {want}")
         require(kl >= -1e-9, "KL:negative", f"KL divergence {kl} is negative")
-    if not any(bool((p < 1e-12).any()) for p in ps):
+    if not any(bool((p < TINY).any()) for p in ps):
         kl_own = TS.KL(state, lib_own, space, bases=bases)
         require(is_plain_float(kl_own) and abs(kl_own) <= 1e-9, "KL:own-state" + (":bases=None" if bases is None else ""),
                 f"KL against the model's own state is {kl_own}, not 0 (bases {bases})")
@@ -186,7 +192,7 @@ def check(c):
     require(abs(f_again - f) <= 1e-12, "fidelity:not-repeatable", f"fidelity of the same state and target changed from {f} to {f_again} on a second call")
     if not risky:
         kl_again = TS.KL(state, lib_t, space, bases=bases)
-        require(is_plain_float(kl_again) and (abs(kl_again - want) <= 1e-8 * (1 + abs(want))), "KL:not-repeatable", f"KL changed to {kl_again} on a later call (expected {want})")
+        require(is_plain_float(kl_again) and (abs(kl_again - kl_want) <= 1e-8 * (1 + abs(kl_want))), "KL:not-repeatable", f"KL changed to {kl_again} on a later call (expected {kl_want})")
 
     # ---------------- NLL
     rows = born_rows({"state": sc, "rows": c["rows"]})
@@ -197,7 +203,7 @@ def check(c):
     for b, k in rows:
         pb = born(model, b)
         pb = pb / pb.sum()
-        if float(pb[k]) < 1e-12:
+        if float(pb[k]) < TINY:
             ok = False
         want -= float(torch.log(pb[k])) / N
     if ok:
@@ -210,6 +216,27 @@ def check(c):
         require(abs(nll - want) <= 1e-8 * (1 + abs(want)), "NLL:value", f"NLL = {nll} but minus the mean log Born probability of the samples in their own bases is {want}")
     else:
         excluded += 1
+    # history on the same model object: parameters B written in place, metrics evaluated, parameters A restored, metrics evaluated again
+    if c.get("alt"):
+        gen.set_net(state.rbm_am, c["alt"]["am"])
+        if c["alt"].get("ph"):
+            gen.set_net(state.rbm_ph, c["alt"]["ph"])
+        sp2 = state.generate_hilbert_space()
+        if dens:
+            ownB = R.lib_to_c(state.rho(sp2, sp2)); ownB = ownB / ownB.diagonal().real.sum()
+        else:
+            ownB = R.lib_to_c(state.psi(sp2)); ownB = ownB / torch.sqrt((ownB.abs() ** 2).sum())
+        fB = TS.fidelity(state, R.c_to_lib(ownB), space)
+        require(abs(fB - 1) <= ftol, "history:fidelity-own-state-after-update", f"after an in-place parameter update, fidelity against the model's own (new) state is {fB}, not 1")
+        TS.NLL(state, R.rows_from_indices([0], n), space)
+        gen.set_net(state.rbm_am, sc["am"])
+        if sc.get("ph"):
+            gen.set_net(state.rbm_ph, sc["ph"])
+        fA = TS.fidelity(state, lib_t, space)
+        require(abs(fA - f) <= 1e-12, "history:fidelity-after-restoring-parameters", f"after restoring the original parameters fidelity is {fA}, it was {f}")
+        if not risky:
+            klA = TS.KL(state, lib_t, space, bases=bases)
+            require(abs(klA - kl_want) <= 1e-8 * (1 + abs(kl_want)), "history:KL-after-restoring-parameters", f"after restoring the original parameters KL is {klA}, expected {kl_want}")
     hasY = any("Y" in b for b in (bases or []))
     nt = nonreal and (t == "positive" or hasY) and (not dens or c["A"]["r"] > 1)
     return {"nontrivial": nt, "excluded": excluded,
